@@ -147,6 +147,47 @@ CHECKS.update({
             "DESIGN.md 8.C16"),
 })
 
+CHECKS.update({
+    "C13": ("proof",
+            "Coq theorems (Props/C13.v, 7) about Model/{Stats,Sock,Writer}.v: an unbuffered sink hands send_to exactly one "
+            "datagram per emit whose payload is the metric's bytes unchanged, to the first resolved address, and passes the "
+            "OS's answer through; the buffered sinks' datagram stream is the C05 stream of the line-buffering writer with "
+            "terminator '\\n' and capacity 512 unless configured, the rest leaves on flush.  Partial by nature: what the OS "
+            "does with a datagram is outside any model - the correspondence check observes real UDP (127.0.0.1) and Unix "
+            "datagram sockets (blocking/non-blocking, ASCII / multi-byte UTF-8 / whitespace-edged / empty / up to 60 kB "
+            "metrics, listener down/up as fault script, address lists of length 0/1/2, optional queuing wrapper) and compares "
+            "datagrams, results and stats with the model",
+            TRUST + "modelled not verified: UdpSocket/UnixDatagram::send_to (one all-or-nothing datagram), loopback delivery",
+            "machine-checked proof (Coq 8.16) on a hand-written model + differential correspondence check on real local sockets",
+            "DESIGN.md 8.C13"),
+    "C14": ("proof",
+            "Coq theorems (Props/C14.v, 9) about Model/Stats.v for all attempt sequences and ALL interleavings (permutations) of "
+            "the atomic increments of concurrent updates: packets_sent + packets_dropped = attempts, bytes_sent / bytes_dropped = "
+            "sizes accepted / offered-and-refused, modulo 2^64 as fetch_add wraps and exactly when the totals fit; unbuffered: "
+            "attempts = emits; buffered: attempts = the writer's underlying writes; identical through a queuing wrapper.  "
+            "Correspondence: MetricSink::stats() after every generated socket history (incl. refused sends via a vanished Unix "
+            "listener and through QueuingMetricSink), SocketStats::update hammered from 4-8 threads, a shared UdpMetricSink "
+            "with 4-8 emitting threads",
+            TRUST + "modelled not verified: AtomicU64::fetch_add (atomic, wrapping); sockets as in C13",
+            "machine-checked proof (Coq 8.16) on a hand-written model + differential correspondence check on real local sockets",
+            "DESIGN.md 8.C14"),
+    "C18": ("proof",
+            "Coq theorems (Props/C18.v, 11) about a release/acquire view machine (Model/Singleton.v) for one atomic state and "
+            "one non-atomic cell, for EVERY number of threads, programs over set/get/is_set and schedules incl. every stale-read "
+            "choice, parameterised by the four Ordering arguments of state.rs: if the COMPLETE store is at least Release and "
+            "is_set's load at least Acquire (ord_ok) then no data race, one cell write, first set wins, every get returns None or "
+            "the winner's value after the initialising write (happens-before), COMPLETE is stable; ord_ok is also necessary "
+            "(racy execution for each of the 625-|ok| records).  Tie: hook H1 traces every atomic operation with its DECLARED "
+            "Ordering; per run ord_ok(observed) is re-proved by vm_compute (Obs_C18.v), all SC interleavings of all programs "
+            "with <= 9 traced operations are executed on the real SingletonHolder by a blocking tracer and compared with the "
+            "model, and a vector-clock checker over the declared orderings looks for unordered conflicting cell accesses",
+            TRUST + "the pass-through shim cadence-macros/src/verif.rs (reports real arguments); memory model = RA fragment of C11 "
+            "(SeqCst as AcqRel, release sequences through RMWs, no fences/consume/mo-insertion); stale reads covered by proof "
+            "and model explorer only (x86 executions are SC)",
+            "machine-checked proof (Coq 8.16) on a hand-written RA view machine + trace conformance on all SC interleavings",
+            "DESIGN.md 8.C18"),
+})
+
 PENDING = "check not built yet in this session (under construction; not a claim that the technique cannot apply)"
 
 
